@@ -200,6 +200,11 @@ func c11Gen(tier string, r *rand.Rand) []Case {
 			}
 			v("length", c, "sha2_256", fmt.Sprintf("len:%d", l), 8)
 		}
+		for _, where := range []string{"front", "mid", "both", "end"} {
+			for _, k := range []int{1, 2, 32, 64} {
+				v("padded", c, "sha2_256", fmt.Sprintf("pad:%s:%d", where, k), 8)
+			}
+		}
 		// Sign then Verify with digests of special shapes (fixed-output hashers): leading zero bytes,
 		// all zero, all 0xff, longer than 32 bytes with a zero first byte (only the leftmost 32 bytes count)
 		for _, dg := range [][]byte{
@@ -553,6 +558,22 @@ func c11Run(c Case) (Result, error) {
 				if v, e := crypto.SignatureFormatCheck(alg, wide); v || e != nil {
 					return Result{}, implViolation("SignatureFormatCheck of a %d-byte signature returned (%v, %v)", len(wide), v, e)
 				}
+			}
+		case strings.HasPrefix(in.Mut, "pad:"):
+			// zero bytes inserted before r, between r and s, or after s: the integers r and s a lenient parser
+			// reads may be unchanged, the string is not 64 bytes
+			parts := strings.Split(in.Mut, ":")
+			k, _ := strconv.Atoi(parts[2])
+			z := make([]byte, k)
+			switch parts[1] {
+			case "front":
+				sig = append(z, sig...)
+			case "mid":
+				sig = append(append(append([]byte{}, sig[:32]...), z...), sig[32:]...)
+			case "both":
+				sig = append(append(append(append([]byte{}, z...), sig[:32]...), z...), sig[32:]...)
+			default:
+				sig = append(append([]byte{}, sig...), z...)
 			}
 		case strings.HasPrefix(in.Mut, "craft:"), strings.HasPrefix(in.Mut, "craftplusn:"):
 			// a VALID signature with a chosen s (1, n-1, ...): pick the nonce k, take r from k*G
